@@ -44,12 +44,22 @@ func nextStringArgument(cmd string, name string, args Arguments) (string, error)
 	return str, nil
 }
 
+// parseFloat parses a floating point argument of a command. strconv.ParseFloat
+// also accepts the digit separators of Go literals ("1_000"), which are not
+// numbers on the wire.
+func parseFloat(str string) (float64, error) {
+	if strings.Contains(str, "_") {
+		return 0, &strconv.NumError{Func: "ParseFloat", Num: str, Err: strconv.ErrSyntax}
+	}
+	return strconv.ParseFloat(str, 64)
+}
+
 func nextFloatArgument(cmd string, name string, args Arguments) (float64, error) {
 	str, err := args.NextString()
 	if err != nil {
 		return 0, newMissingArgumentError(cmd, name, err)
 	}
-	score, err := strconv.ParseFloat(str, 64)
+	score, err := parseFloat(str)
 	if err != nil {
 		return 0, newMissingArgumentError(cmd, name, err)
 	}
@@ -284,7 +294,7 @@ func parseRangeScoreIndex(cmd string, name string, str string) (float64, bool, e
 		offset = 1
 		exclusive = true
 	}
-	rng, err := strconv.ParseFloat(str[offset:], 64)
+	rng, err := parseFloat(str[offset:])
 	if err != nil {
 		return 0, false, newInvalidArgumentError(cmd, name, err)
 	}
